@@ -36,7 +36,12 @@ TECHNIQUE = (
     "text class (controls, Latin-1, BMP, astral, JSON/format metacharacters, long, and strings with lone surrogates as "
     "os.fsdecode()/surrogateescape produce them for undecodable bytes); the shipped `gallia discover doip` command run through "
     "gallia.cli.gallia.main() with --db/--artifacts-base/--lock-file against 127.0.0.1:1 (no listener: the discovery ends by itself with the "
-    "command's own sys.exit), judged by the same artefact oracle plus the discovery_run row the discoverer writes during the run"
+    "command's own sys.exit), judged by the same artefact oracle plus the discovery_run row the discoverer writes during the run; "
+    "commands that fork a helper process (os.fork() / multiprocessing 'fork' start method) which is still alive when entry_point() returns - the lock "
+    "file is probed with a fresh open()+flock() right then, while the helper (which shares the command's open files) lives; and runs that get their "
+    "real SIGINT only after run() is over, while entry_point() closes the database: the command had queued a burst of scan results "
+    "(DBHandler.insert_scan_result), the parent waits for the end of run() and for the command's call of DBHandler.disconnect() (noted by a wrapper around "
+    "that method), counts the burst rows already written with a read-only reader and sends the signal"
 )
 LEVEL_TEXT = (
     "Fault enumeration: command kind x exit kind x lifecycle point is enumerated completely in both tiers (3 x (1 + 9 x 5) = "
@@ -50,7 +55,9 @@ LEVEL_TEXT = (
     "re-connects its database handler once or twice, plus 10 runs (thorough: 150 = class x kind x lifecycle point) in which the command "
     "logs one record of each of 10 text classes (4 of them with lone surrogates) before it logs further records and ends, plus 4 runs (thorough: 32 = "
     "target form x 8 resource settings) of the shipped DoIP discoverer through the real CLI (target given as host:port, with src_addr, with src_addr and "
-    "activation_type, with a foreign scheme). Thorough: every combination "
+    "activation_type, with a foreign scheme), plus 6 runs (command kind x fork flavour; thorough: 144 = kind x flavour x fork point x 8 endings) in which "
+    "the command forks a helper process that outlives entry_point(), lock file on, plus 6 runs (every kind twice; thorough: 48 = kind x 8 endings x 2) "
+    "that end in main or teardown with 600-1200 scan results queued and get a real SIGINT while entry_point() closes the database. Thorough: every combination "
     "x all 8 resource settings x 5 hook pairs (a rotating diagonal of the non-failing 3x3 hook square, one failing pre-hook, "
     "one failing post-hook; 5520 runs; VERIF_C15_FULL=1 runs all 25 hook pairs). One fault per run; held means held for the "
     "runs executed. A child that exceeds the watchdog is re-run; it is a finding only if it hangs again and the thread stacks "
@@ -77,6 +84,11 @@ RULE = (
     "that point), database on; a fifth family is (text class of one logged message, 10 classes) x (kind) x (lifecycle point at which it is logged) "
     "x (ending at or after that point), artifacts dir on; a sixth family is (`gallia discover doip` through the CLI main) x (target form in {host:port, "
     "+src_addr, +src_addr+activation_type, foreign scheme}) x resources, peer 127.0.0.1:1 not listening; "
+    "a seventh family is (kind) x (fork flavour in {os.fork, multiprocessing fork-context Process}) x (lifecycle point in {setup_post, main, teardown_pre} at which "
+    "the command forks a helper process that stays alive until the harness stops it after entry_point()) x (ending at or after that point, real SIGINT excepted), "
+    "lock file on; an eighth family is (kind) x (8 endings in main / teardown) x (burst of 600/900/1200 queued scan results at the last lifecycle point before "
+    "the ending) x (real SIGINT sent 0/5/20 ms after the command called DBHandler.disconnect(), i.e. while entry_point() writes out the queue and closes the database), "
+    "database on; "
     "non-trivial = anything but a fault-free run without hooks and "
     "resources; distinct = distinct case tuples"
 )
@@ -102,6 +114,18 @@ ASSUMPTIONS = [
     "seconds; which n is the command's business, the oracle only demands that process status, META.json and run_meta agree on it, that run_meta has "
     "its end time, that the discovery_run row exists once the command got past its target check, that the log is closed and readable when CLI main ends, "
     "and that the lock is free; SystemExit out of CLI main is caught in the child only to copy the log file before the interpreter's atexit hooks run",
+    "a command may start helper processes by fork (multiprocessing's default start method on Linux) and need not wait for them: 'the lock file is released' "
+    "means that another open()+flock(LOCK_EX|LOCK_NB) succeeds once entry_point() has returned, also while such a helper is alive; the helper does nothing "
+    "with what it inherited; the harness stops and reaps it after the probe. Endings by a real SIGINT are not combined with a helper (entry_point() raises "
+    "there and the lock is only judged after the process has ended)",
+    "a Ctrl-C that arrives when run() is over (entry_point() is closing the database) may end the process with the code of the finished run or as "
+    "interrupted (130 / death by SIGINT); in the first case META.json and run_meta must carry the run's code, in the second 130; everything else "
+    "(META.json present, times, log closed when entry_point() ends, run_meta end time) is demanded as for any other ending. The signal is sent once "
+    "the command has called its database handler's disconnect() after run() ended (a run where that was not seen within 5 s is not judged; a Ctrl-C that "
+    "arrives earlier, while the run_meta row is still being completed, is not generated), and the run counts as exercised only "
+    "if at least 50 rows of the burst were still unwritten at that moment. What becomes of the queued scan results is not part of this property. After its "
+    "observations the child stops a database connection the command left open (its worker thread is not a daemon thread and can keep a process alive whose "
+    "command object is still referenced, e.g. from a traceback); that the connection was left open is counted, not judged",
     "the database may be shared with other writers: a write lock held by somebody else for up to 6 s (the handler's busy timeout is 10 s) "
     "must not cost the run its end time / exit code; a contended run is judged as such only if the measured lock time was 1.5..6 s, "
     "and not judged at all if the harness held the lock longer",
@@ -177,6 +201,28 @@ CLI_TARGETS: dict[str, str | None] = {
     "host-port-src_addr": f"doip://{CLI_DEAD_PEER}?src_addr=0x0e80",
     "foreign-scheme": f"tcp-lines://{CLI_DEAD_PEER}",  # refused by the command itself before it touches the database tables
 }
+# ---- "the command leaves a forked helper process behind" family (spec["forkhelper"]): at one lifecycle point the command forks a
+# process (os.fork() or a multiprocessing Process of the "fork" start method - Linux' default) that is still alive when entry_point()
+# returns. A forked process shares every open file description of the command, the lock file's included; "the lock file is released"
+# is judged by a fresh open()+flock() right after entry_point() returned, while the helper is alive. The child harness stops and
+# reaps the helper afterwards (the parent kills it if the child could not).
+FORKHELPER_POINTS = ["setup_post", "main", "teardown_pre"]
+FORKHELPER_HOW = ["os-fork", "multiprocessing-fork"]
+HELPER_MAX_LIFE = 70.0  # the helper ends by itself after that (nobody stopped it); longer than any run may take
+# ---- "Ctrl-C while entry_point() closes the database" family (spec["latesig"]): the command queues a burst of scan results
+# (DBHandler.insert_scan_result, the call every UDS request of a scanner ends in) shortly before it ends, so that closing the
+# database has something to write; the parent waits until run() is over (marker written by the harness command's run() wrapper)
+# and until the command has called DBHandler.disconnect() (noted by a wrapper around that method of the command's handler; what is
+# left of "db close" is writing out the queue and closing) and sends a real SIGINT. The run counts as exercised only if rows of the
+# burst were still unwritten when the signal went out (counted by a read-only sqlite3 reader).
+LATESIG_ENDS = [("return", "none"), ("exit3", "main"), ("connerr", "main"), ("runtime", "teardown_post"), ("kbdint", "teardown_pre"),
+                ("exit1", "teardown_post"), ("udserr", "main"), ("exit0", "teardown_pre")]
+LATESIG_ROWS = [600, 900, 1200]
+LATESIG_MARGIN = 50  # rows of the burst that must still be missing from the database when the signal is sent
+LATESIG_RUN_END_TIMEOUT = 25.0
+LATESIG_ENTRY_TIMEOUT = 5.0
+LATESIG_COND = "late-real-sigint"
+BURST_TAG = "c15_burst"
 TEXT_SURROGATE = [c for c, t in TEXT_CLASSES.items() if any(0xD800 <= ord(ch) <= 0xDFFF for ch in t)]
 LOGGER_NAME = "gallia.verif.c15"
 # set by the fault injector (main thread), read by the virtual ECU (its own thread): "answer" | "silent" | "reset"
@@ -444,6 +490,65 @@ def gen_cli(tier: str, seed: int, first_id: int) -> list[dict[str, Any]]:
              "cli": {"target": f}, "id": first_id + i} for i, (f, (art, db, lock)) in enumerate(combos)]
 
 
+def gen_forkhelper(tier: str, seed: int, first_id: int) -> list[dict[str, Any]]:
+    """Runs in which the command forks a helper process at one lifecycle point (setup after super().setup(), main, teardown before
+    super().teardown()) that outlives entry_point(), and then ends in any way at or after that point (a real SIGINT excepted: there
+    entry_point() raises and the lock is only judged after the process ended). Quick: command kind x fork flavour (6 runs), fork point
+    and ending rotating; thorough: kind x flavour x fork point x 8 later endings. Lock file always on, hooks never failing."""
+    import random
+
+    rng = random.Random(f"C15/forkhelper/{tier}/{seed}")
+    combos: list[tuple[str, str, str, str, str]] = []
+    if tier == "quick":
+        i = seed
+        for k in KINDS:
+            for how in FORKHELPER_HOW:
+                at = FORKHELPER_POINTS[i % 3]
+                ends = [x for x in _ends_from(at) if x[0] != "sigint"]
+                e, p = ends[(i * 7 + seed) % len(ends)]
+                combos.append((k, how, at, e, p))
+                i += 1
+    else:
+        for k in KINDS:
+            for how in FORKHELPER_HOW:
+                for at in FORKHELPER_POINTS:
+                    ends = [x for x in _ends_from(at) if x[0] != "sigint"]
+                    for e, p in [("return", "none")] + rng.sample(ends[1:], 7):
+                        combos.append((k, how, at, e, p))
+    rows = []
+    for i, (k, how, at, e, p) in enumerate(combos):
+        rows.append({"kind": k, "exit": e, "point": p, "pre": rng.choice(["none", "ok"]), "post": rng.choice(["none", "ok", "noisy"]),
+                     "art": rng.random() < 0.5, "db": rng.random() < 0.5, "lock": True, "forkhelper": {"at": at, "how": how}, "id": first_id + i})
+    return rows
+
+
+def gen_latesig(tier: str, seed: int, first_id: int) -> list[dict[str, Any]]:
+    """Runs that end in one of 8 ways in main or teardown and get a real SIGINT while entry_point() closes the database: the command
+    queued a burst of scan results at its last lifecycle point before the ending. Quick: every command kind twice (6 runs, endings
+    rotating with the seed); thorough: kind x 8 endings x 2. Database always on, hooks never failing."""
+    import random
+
+    rng = random.Random(f"C15/latesig/{tier}/{seed}")
+    if tier == "quick":
+        triples = [(KINDS[i % 3], *LATESIG_ENDS[(i * 3 + seed) % len(LATESIG_ENDS)]) for i in range(6)]
+    else:
+        triples = [(k, e, p) for k in KINDS for e, p in LATESIG_ENDS] * 2
+    rows = []
+    for i, (k, e, p) in enumerate(triples):
+        rows.append({"kind": k, "exit": e, "point": p, "pre": rng.choice(["none", "ok"]), "post": rng.choice(["none", "ok", "noisy"]),
+                     "art": i % 4 != 3, "db": True, "lock": rng.random() < 0.5,
+                     "latesig": {"at": "teardown_pre" if p.startswith("teardown") else "main", "rows": LATESIG_ROWS[(i + seed) % len(LATESIG_ROWS)],
+                                 "delay": [0.0, 0.005, 0.02][(i // 2 + seed) % 3], "window": "db-sync"},
+                     "id": first_id + i})
+    if os.environ.get("VERIF_C15_LATESIG_RUN_ENTRY", "1") == "1":
+        # the Ctrl-C arrives earlier, while the run_meta row is being completed (another writer holds the database's write lock
+        # from right before the ending, so that this takes a while). This window was a genuine defect (repaired in /repo f4c4351).
+        for k in KINDS:
+            rows.append({"kind": k, "exit": "exit3", "point": "main", "pre": "none", "post": "ok", "art": True, "db": True, "lock": True, "contend": CONTEND_HOLDS[0],
+                         "latesig": {"at": "main", "rows": 5, "delay": 0.3, "window": "run-entry-completion"}, "id": first_id + len(rows)})
+    return rows
+
+
 def shards(tier: str, seed: int) -> list[dict[str, Any]]:
     n = 16
     cases = gen_cases(tier, seed)
@@ -467,8 +572,16 @@ def shards(tier: str, seed: int) -> list[dict[str, Any]]:
     for j, c in enumerate(lgt):
         out[(j * 3 + seed + 1) % n]["cases"].append(c)
     # the shipped DoIP discoverer through the real CLI takes real seconds (unanswered UDP requests): start these first
-    for j, c in enumerate(gen_cli(tier, seed, len(cases) + len(contend) + len(tdp) + len(dbc) + len(lgt))):
+    cli = gen_cli(tier, seed, len(cases) + len(contend) + len(tdp) + len(dbc) + len(lgt))
+    for j, c in enumerate(cli):
         out[(j * 4 + seed + 3) % n]["cases"].insert(0, c)
+    nxt = len(cases) + len(contend) + len(tdp) + len(dbc) + len(lgt) + len(cli)
+    # the command leaves a forked helper process behind / gets its Ctrl-C while the database is being closed
+    fkh = gen_forkhelper(tier, seed, nxt)
+    for j, c in enumerate(fkh):
+        out[(j * 5 + seed + 6) % n]["cases"].append(c)
+    for j, c in enumerate(gen_latesig(tier, seed, nxt + len(fkh))):
+        out[(j * 3 + seed + 8) % n]["cases"].insert(0, c)
     return out
 
 
@@ -511,6 +624,15 @@ def required_reach(tier: str) -> dict[str, int]:
     k = 3 if tier == "quick" else 12
     need.update({"cli.discover-doip.run_meta_checked": k, "cli.discover-doip.wrote_discovery_run": 2 if tier == "quick" else 9,
                  "cli.discover-doip.meta_checked": 2 if tier == "quick" else 12, "cli.discover-doip.log_checked_at_entry_point_end": 2 if tier == "quick" else 12})
+    # a forked helper process of the command was alive when the lock file was probed right after entry_point() had returned, per fork flavour
+    k = 4 if tier == "quick" else 100
+    need.update({"forkhelper.exercised": k, "forkhelper.lock_probed_after_return": k})
+    need.update({f"forkhelper.how.{h}": 2 if tier == "quick" else 45 for h in FORKHELPER_HOW})
+    # a real SIGINT went out after run() was over and the run_meta row had its end time, while rows the command had queued were still
+    # unwritten (entry_point() was closing the database), and the artefacts of such runs were compared
+    k = 3 if tier == "quick" else 30
+    need.update({"latesig.run-entry-completion-window": 2, "latesig.exercised": k, "latesig.run_meta_checked": k, "latesig.meta_checked": 2 if tier == "quick" else 20,
+                 f"log.checked_at_entry_point_end.{LATESIG_COND}": 2 if tier == "quick" else 20})
     return need
 
 
@@ -599,6 +721,16 @@ def define_commands() -> None:
             self.injector.event("teardown_super_done")
             await self.injector.at("teardown_post", self)
 
+        async def run(self) -> int:
+            if not self.injector.spec.get("latesig"):
+                return await super().run()  # type: ignore[misc,no-any-return]
+            self.injector.watch_db_close(self)
+            try:
+                return await super().run()  # type: ignore[misc,no-any-return]
+            finally:
+                # setup/main/teardown are over, however they ended: what follows is entry_point()'s own bookkeeping
+                self.injector.run_ended()
+
     class C15Script(_Mixin, AsyncScript):  # type: ignore[no-redef]
         CONFIG_TYPE = C15ScriptConfig
         SHORT_HELP = "C15 harness script"
@@ -638,9 +770,111 @@ class Injector:
         self.fd = os.open(self.out / "events", os.O_WRONLY | os.O_CREAT | os.O_APPEND, 0o644)
         self.logged_fd = os.open(self.out / "logged.jsonl", os.O_WRONLY | os.O_CREAT | os.O_APPEND, 0o644)
         self.seq = 0
+        self.helper: tuple[str, Any] | None = None
+        self.run_over = False
 
     def event(self, name: str) -> None:
         os.write(self.fd, (name + "\n").encode())
+
+    def run_ended(self) -> None:
+        self.run_over = True
+        self.event("run_ended")
+        (self.out / "run-ended").write_text(str(os.getpid()))
+
+    def watch_db_close(self, cmd: Any) -> None:
+        """Observation at the boundary between the command and its database handler: DBHandler.disconnect() is the handler's only way
+        of being closed; the call (not what it does) is noted once run() is over, then the handler's own method runs."""
+        h = cmd.db_handler
+        if h is None:
+            return
+        orig = h.disconnect
+
+        async def disconnect() -> None:
+            if self.run_over:
+                self.event("db_close_entered")
+                (self.out / "db-close-entered").write_text(str(os.getpid()))
+            await orig()
+
+        h.disconnect = disconnect
+
+    async def queue_rows(self, cmd: Any) -> None:
+        """what a scanner does with every request it sends, many times in a row: hand scan results to the database handler's queue"""
+        from datetime import UTC
+
+        from gallia.db.log import LogMode
+        from gallia.services.uds.core.service import TesterPresentRequest
+
+        h = cmd.db_handler
+        n = int(self.spec["latesig"]["rows"])
+        if h.scan_run is None:
+            await h.insert_scan_run("c15://burst")
+        req = TesterPresentRequest(suppress_response=False)
+        for i in range(n):
+            await h.insert_scan_result({BURST_TAG: self.spec.get("id", 0), "i": i}, req, None, None, datetime.now(UTC).astimezone(), None, LogMode.explicit)
+        self.event(f"rows_queued {n}")
+
+    def fork_helper(self) -> None:
+        """The command starts a helper process by fork (no exec) that is still busy when the command itself is done. The forked copy
+        does OS-level work only (it must not touch the loop, the logging threads or the buffers it inherited) and ends with _exit."""
+        how = self.spec["forkhelper"]["how"]
+        stop = str(self.out / "helper-stop")
+
+        def body() -> None:
+            try:
+                limit = time.monotonic() + HELPER_MAX_LIFE
+                while time.monotonic() < limit and not os.path.exists(stop):
+                    time.sleep(0.02)
+            finally:
+                os._exit(0)
+
+        if how == "os-fork":
+            pid = os.fork()
+            if pid == 0:
+                body()
+            self.helper = ("pid", pid)
+        else:
+            import multiprocessing
+
+            proc = multiprocessing.get_context("fork").Process(target=body, name="c15-helper", daemon=True)
+            proc.start()
+            pid = proc.pid or 0
+            self.helper = ("mp", proc)
+        (self.out / "helper-pid").write_text(str(pid))
+        self.event(f"helper_forked {how}")
+
+    def after_entry_point(self, cmd: Any) -> None:
+        """Harness housekeeping once entry_point() is over and the lock file has been probed: was the helper alive all the time (then
+        stop and reap it), did the command leave its database connection open (then note it and - unless the spec says otherwise -
+        stop the connection's worker thread: it is not a daemon thread and would keep the interpreter from exiting)."""
+        d: dict[str, Any] = {}
+        try:
+            if self.helper is not None:
+                kind, h = self.helper
+                if kind == "pid":
+                    d["helper_alive_at_probe"] = os.waitpid(h, os.WNOHANG) == (0, 0)
+                    try:
+                        os.kill(h, signal.SIGKILL)
+                        os.waitpid(h, 0)
+                    except (OSError, ChildProcessError):
+                        pass
+                else:
+                    d["helper_alive_at_probe"] = bool(h.is_alive())
+                    h.kill()
+                    h.join(10)
+                d["helper_reaped"] = True
+            if self.spec.get("latesig"):
+                con = getattr(getattr(cmd, "db_handler", None), "connection", None)
+                d["db_connection_left_open"] = con is not None and con._thread.is_alive()
+                if con is not None and not self.spec["latesig"].get("leave_connection"):
+                    con.stop()
+                    con._thread.join(15)
+                    d["db_connection_stopped_by_harness"] = not con._thread.is_alive()
+        except BaseException as e:  # noqa: BLE001  (housekeeping must never change how the child ends)
+            d["error"] = repr(e)
+        try:
+            (self.out / "after-entry-point.json").write_text(json.dumps(d))
+        except OSError:
+            pass
 
     def say(self, log: Any, text: str, what: str) -> None:
         """log one record through gallia's logger and, once the call has returned, note what was logged"""
@@ -717,6 +951,12 @@ class Injector:
         if spec.get("dbcycle") and spec["dbcycle"]["at"] == point and cmd.db_handler is not None:
             await self.db_cycle(cmd)
             self.say_seq(log, "database handler connected again")
+        if spec.get("forkhelper") and spec["forkhelper"]["at"] == point:
+            self.fork_helper()
+            self.say_seq(log, "helper process forked")
+        if spec.get("latesig") and spec["latesig"]["at"] == point and cmd.db_handler is not None:
+            await self.queue_rows(cmd)
+            self.say_seq(log, "scan results queued")
         if spec.get("logtext") and spec["logtext"]["at"] == point:
             c = spec["logtext"]["class"]
             self.say(log, f"C15-TEXT id={spec.get('id', 0)} class={c}: {TEXT_CLASSES[c]}", f"text:{c}")
@@ -980,6 +1220,8 @@ def child_main(specfile: str) -> None:
         raise
     finally:
         inj.probe_lock("lock-after-entry-point")
+        if spec.get("forkhelper") or spec.get("latesig"):
+            inj.after_entry_point(cmd)
     sys.exit(rc)
 
 
@@ -1065,6 +1307,74 @@ def other_writer_lock(db: Path) -> tuple[sqlite3.Connection | None, str | None]:
         return None, repr(e)
 
 
+def late_sigint(proc: Any, paths: dict[str, Path], spec: dict[str, Any]) -> dict[str, Any]:
+    """Ctrl-C for a run that is already over: wait until the harness command's run() has ended, then (window "db-sync") until the
+    command has called its database handler's disconnect(), look how many rows of the burst the database holds (read-only reader),
+    and send SIGINT.
+    Window "run-entry-completion" (one run per command kind; with spec["contend"]): the harness takes the database's write lock at the hold point
+    before the ending and sends the signal a moment after run() has ended, while the lock is still held."""
+    out, late = paths["out"], spec["latesig"]
+    info: dict[str, Any] = {"sent": False, "window": late.get("window", "db-sync"), "db_close_entered_after": None, "rows_written_at_signal": None}
+    hold = float(spec.get("contend") or 0)
+    other = None
+    try:
+        if hold:
+            deadline = time.monotonic() + SIGINT_READY_TIMEOUT
+            while time.monotonic() < deadline and proc.poll() is None and not (out / "ready-db").exists():
+                time.sleep(0.005)
+            if (out / "ready-db").exists():
+                other, info["lock_error"] = other_writer_lock(paths["db"])
+            t_lock = time.monotonic()
+            (out / "db-locked").write_text("go")
+        deadline = time.monotonic() + LATESIG_RUN_END_TIMEOUT
+        while time.monotonic() < deadline and proc.poll() is None and not (out / "run-ended").exists():
+            time.sleep(0.003)
+        if proc.poll() is not None or not (out / "run-ended").exists():
+            info["why_not_sent"] = "the process ended before run() did" if proc.poll() is not None else "run() did not end in time"
+            return info
+        t_end = time.monotonic()
+        con = None
+        try:
+            con = sqlite3.connect(f"file:{paths['db']}?mode=ro", uri=True, timeout=1)
+            if info["window"] == "db-sync":
+                limit = t_end + LATESIG_ENTRY_TIMEOUT
+                while time.monotonic() < limit and proc.poll() is None:
+                    if (out / "db-close-entered").exists():
+                        info["db_close_entered_after"] = round(time.monotonic() - t_end, 4)
+                        break
+                    time.sleep(0.002)
+            if late.get("delay"):
+                time.sleep(float(late["delay"]))
+            try:
+                info["rows_written_at_signal"] = con.execute("SELECT count(*) FROM scan_result WHERE state LIKE ?", (f"%{BURST_TAG}%",)).fetchall()[0][0]
+            except sqlite3.Error as e:
+                info["rows_error"] = repr(e)
+        except sqlite3.Error as e:
+            info["reader_error"] = repr(e)
+        finally:
+            if con is not None:
+                con.close()
+        if proc.poll() is None:
+            proc.send_signal(signal.SIGINT)
+            info["sent"] = True
+            info["sent_after_run_end"] = round(time.monotonic() - t_end, 4)
+        else:
+            info["why_not_sent"] = "the process ended before the signal could be sent"
+        if other is not None:
+            while time.monotonic() < t_lock + hold and proc.poll() is None:
+                time.sleep(0.01)
+    finally:
+        if other is not None:
+            try:
+                other.execute("COMMIT")
+            except Exception as e:  # noqa: BLE001
+                info["release_error"] = repr(e)
+            finally:
+                other.close()
+            info["held"] = round(time.monotonic() - t_lock, 3)
+    return info
+
+
 def execute(spec: dict[str, Any], rundir: Path, timeout: float = CHILD_TIMEOUT) -> dict[str, Any]:
     import fcntl
 
@@ -1093,7 +1403,10 @@ def execute(spec: dict[str, Any], rundir: Path, timeout: float = CHILD_TIMEOUT) 
         hold = float(spec.get("contend") or 0)
         gate = "ready" if spec["exit"] == "sigint" else ("ready-db" if hold else None)
         try:
-            if gate is not None:
+            if spec.get("latesig"):
+                obs["latesig"] = late_sigint(proc, paths, spec)
+                obs["sigint_delivered"] = bool(obs["latesig"]["sent"])
+            elif gate is not None:
                 deadline = time.monotonic() + SIGINT_READY_TIMEOUT
                 while time.monotonic() < deadline and proc.poll() is None and not (paths["out"] / gate).exists():
                     time.sleep(0.01)
@@ -1155,6 +1468,16 @@ def execute(spec: dict[str, Any], rundir: Path, timeout: float = CHILD_TIMEOUT) 
                 except OSError:
                     proc.kill()
                 proc.wait(timeout=20)
+    if spec.get("forkhelper"):
+        # the child harness stops and reaps its helper process; if it could not (killed, died early), the helper must not stay behind
+        try:
+            aep = json.loads(_read(paths["out"] / "after-entry-point.json") or "{}")
+            hp = int(_read(paths["out"] / "helper-pid") or 0)
+            if hp > 1 and not aep.get("helper_reaped"):
+                (paths["out"] / "helper-stop").write_text("stop")
+                os.kill(hp, signal.SIGKILL)
+        except (OSError, ValueError):
+            pass
     obs["rc"] = proc.returncode
     obs["wall"] = round(time.monotonic() - t0, 3)
     obs["stderr"] = (_read(rundir / "stderr") or "")
@@ -1173,6 +1496,7 @@ def execute(spec: dict[str, Any], rundir: Path, timeout: float = CHILD_TIMEOUT) 
     obs["escaped"] = json.loads(_read(out / "escaped.json") or "null")
     obs["lock_at_fault"] = (_read(out / "lock-at-fault") or "").strip() or None
     obs["lock_after_entry_point"] = (_read(out / "lock-after-entry-point") or "").strip() or None
+    obs["after_ep"] = json.loads(_read(out / "after-entry-point.json") or "null")
     obs["ecu_answers"] = int(_read(out / "ecu-answers") or 0)
     obs["ecu_rdbi_answers"] = int(_read(out / "ecu-rdbi-answers") or 0)
     try:
@@ -1240,6 +1564,8 @@ def execute(spec: dict[str, Any], rundir: Path, timeout: float = CHILD_TIMEOUT) 
                 obs["run_meta_other_writer_rows"] = len(allrows) - len(obs["run_meta"])
                 if spec.get("cli"):
                     obs["discovery_run"] = [list(r) for r in con.execute("SELECT id, protocol, meta FROM discovery_run").fetchall()]
+                if spec.get("latesig") and obs.get("latesig") is not None:
+                    obs["latesig"]["rows_written_finally"] = con.execute("SELECT count(*) FROM scan_result WHERE state LIKE ?", (f"%{BURST_TAG}%",)).fetchall()[0][0]
             finally:
                 con.close()
         except sqlite3.Error as e:
@@ -1292,6 +1618,9 @@ def judge(spec: dict[str, Any], obs: dict[str, Any], rundir: Path, reach: Any = 
     endclass = {"return": "return", "exit0": "sys-exit", "exit1": "sys-exit", "exit3": "sys-exit", "exitstr": "sys-exit",
                 "connerr": "exception", "udserr": "exception", "runtime": "exception", "kbdint": "raised-KeyboardInterrupt"}
     cond = "real-sigint" if real_sigint else endclass.get(ex, "sigint-not-delivered")
+    late = spec.get("latesig")
+    if late and real_sigint:
+        cond = LATESIG_COND  # the run had ended the way `ex` says; the Ctrl-C came while entry_point() was closing the database
     tdprops = spec["point"] == TDPROPS_POINT
     if tdprops:
         cond = TDPROPS_COND
@@ -1330,6 +1659,43 @@ def judge(spec: dict[str, Any], obs: dict[str, Any], rundir: Path, reach: Any = 
             hit(f"contend.kind.{kind}")
             hit("contend.finished_only_after_release" if c.get("child_exited_while_locked_after") is None else "contend.finished_while_locked")
 
+    # ---- Ctrl-C while entry_point() closes the database: did the signal really go out in that window?
+    late_hit = False
+    if late:
+        li = obs.get("latesig") or {}
+        aep = obs.get("after_ep") or {}
+        if not li.get("sent"):
+            hit("latesig.signal_not_sent")  # judged as the plain run it was
+        elif li.get("window") == "db-sync":
+            if li.get("db_close_entered_after") is None:
+                # the command was not seen closing its database handler before the signal went out: where in its bookkeeping it was is unknown
+                hit("latesig.discarded_db_close_not_seen")
+                return []
+            n = int(late["rows"])
+            late_hit = f"rows_queued {n}" in events and li.get("rows_written_at_signal") is not None and li["rows_written_at_signal"] <= n - LATESIG_MARGIN
+            hit("latesig.exercised" if late_hit else "latesig.signal_after_database_was_written")
+            if late_hit:
+                hit(f"latesig.kind.{kind}")
+                hit(f"latesig.ending.{endclass.get(ex, ex)}")
+        else:
+            hit("latesig.run-entry-completion-window")
+        if aep.get("db_connection_left_open"):
+            # counted, not judged: the harness stops the connection's (non-daemon) worker thread after its observations, so the
+            # process can end; whether the process would have ended by itself is not observed in these runs
+            hit("latesig.db_connection_left_open_at_entry_point_end")
+    # ---- the command left a forked helper process behind: was it alive when the lock file was probed after entry_point()?
+    fh = spec.get("forkhelper")
+    fh_hit = False
+    if fh:
+        aep = obs.get("after_ep") or {}
+        fh_hit = any(e == f"helper_forked {fh['how']}" for e in events) and bool(aep.get("helper_alive_at_probe"))
+        hit("forkhelper.exercised" if fh_hit else "forkhelper.not_exercised")
+        if fh_hit:
+            hit(f"forkhelper.how.{fh['how']}")
+            hit(f"forkhelper.kind.{kind}")
+            hit(f"forkhelper.at.{fh['at']}")
+            hit("forkhelper.lock_probed_after_return", 1 if obs["returned"] is not None and obs["lock_after_entry_point"] in ("free", "held") else 0)
+
     hit("fault.point_reached", 1 if "fault" in events else 0)
     # ---- the command gave its database handler away and took it back: did that really happen (and complete) in this run?
     dbcycled = False
@@ -1355,6 +1721,9 @@ def judge(spec: dict[str, Any], obs: dict[str, Any], rundir: Path, reach: Any = 
             want = want | {0}  # nothing asked the failing ECU for anything: a clean end is as good as the error
     # ---- process exit status
     ok_rc = want | ({-signal.SIGINT} if real_sigint else set())
+    if late and real_sigint:
+        # the run was over when the Ctrl-C came: the process may end with the run's own code or as interrupted
+        ok_rc = want | {128 + signal.SIGINT, -signal.SIGINT}
     if rc not in ok_rc:
         if tdprops:
             v.append((f"exit/code-differs/{cond}", f"process ended with {rc}, documented mapping says {sorted(want)}: the ECU "
@@ -1364,6 +1733,8 @@ def judge(spec: dict[str, Any], obs: dict[str, Any], rundir: Path, reach: Any = 
         else:
             v.append((f"exit/code-differs/{ex if not real_sigint else cond}", f"process ended with {rc}, documented mapping says {sorted(want)} for {ex} in a {kind} command"))
     eff = 130 if real_sigint else rc  # the code every record has to carry
+    if late and real_sigint and rc not in (128 + signal.SIGINT, -signal.SIGINT):
+        eff = rc  # the process ended with the code of the finished run: that is what the records have to say
 
     # ---- hooks: ran, environment contract, failing hook reported and harmless
     for hv in ("pre", "post"):
@@ -1427,6 +1798,8 @@ def judge(spec: dict[str, Any], obs: dict[str, Any], rundir: Path, reach: Any = 
         hit("meta.parsed")
         if tdprops_hit:
             hit("tdprops.meta_checked")
+        if late_hit:
+            hit("latesig.meta_checked")
         if meta["exit_code"] != eff:
             v.append((f"meta/exit-code-differs/{cond}", f"META.json says exit_code={meta['exit_code']!r}, the process ended with {rc}" + (" (SIGINT; must be 130)" if real_sigint else "")))
         try:
@@ -1562,6 +1935,8 @@ def judge(spec: dict[str, Any], obs: dict[str, Any], rundir: Path, reach: Any = 
                 hit("tdprops.run_meta_checked")
             if dbcycled:
                 hit("dbcycle.run_meta_checked")
+            if late_hit:
+                hit("latesig.run_meta_checked")
             row = rows[0]
             reached = "teardown_super_done" in events and kind in ("scanner", "uds")
             where = "scanner-teardown" if reached else ("scanner-teardown-entered" if "teardown_super_enter" in events and kind != "script" else "other")
@@ -1596,7 +1971,8 @@ def judge(spec: dict[str, Any], obs: dict[str, Any], rundir: Path, reach: Any = 
         if obs.get("lock_after_exit") != "free":
             v.append(("lock/held-after-exit", f"lock file state after the process ended: {obs.get('lock_after_exit')}"))
         if obs["returned"] is not None and obs["lock_after_entry_point"] == "held":
-            v.append(("lock/held-after-return", "entry_point() returned but the lock file is still locked"))
+            v.append(("lock/held-after-return", "entry_point() returned but the lock file is still locked"
+                      + (f" (a helper process the command had forked at {fh['at']} by {fh['how']} was alive at that moment: it shares the command's open lock file)" if fh_hit else "")))
         for probe in ("lock_at_fault", "lock_parent_probe_during_run"):
             if obs.get(probe) is not None:
                 hit("lock.probed_during_run")
@@ -1743,7 +2119,7 @@ def hang_blame(obs: dict[str, Any]) -> str:
 def summarize(obs: dict[str, Any]) -> dict[str, Any]:
     s = {k: obs.get(k) for k in ("rc", "wall", "events", "returned", "escaped", "sigint_delivered", "watchdog", "lock_at_fault",
                                  "lock_after_entry_point", "lock_after_exit", "artifact_dirs", "run_meta", "log", "hook_pre_lock", "hook_post_lock", "contend", "run_meta_other_writer_rows",
-                                 "ep_end", "ep_end_error", "log_at_ep_end", "ecu_answers", "ecu_rdbi_answers", "ecu_faulted")}
+                                 "ep_end", "ep_end_error", "log_at_ep_end", "ecu_answers", "ecu_rdbi_answers", "ecu_faulted", "latesig", "after_ep")}
     s["meta"] = (obs.get("meta_raw") or "")[:600] or None
     s["logged"] = [[t[:120], k, sur] for t, k, sur in (obs.get("logged") or [])]
     for f in ("log", "log_at_ep_end"):
@@ -1763,7 +2139,9 @@ def case_ident(spec: dict[str, Any]) -> tuple[Any, ...]:
             + (("uds", spec["uds_timeout"], spec.get("uds_retries")) if spec.get("uds_timeout") is not None else ())
             + (("dbcycle",) + tuple(sorted(spec["dbcycle"].items())) if spec.get("dbcycle") else ())
             + (("logtext",) + tuple(sorted(spec["logtext"].items())) if spec.get("logtext") else ())
-            + (("cli", spec["cli"]["target"]) if spec.get("cli") else ()))
+            + (("cli", spec["cli"]["target"]) if spec.get("cli") else ())
+            + (("forkhelper",) + tuple(sorted(spec["forkhelper"].items())) if spec.get("forkhelper") else ())
+            + (("latesig",) + tuple(sorted(spec["latesig"].items())) if spec.get("latesig") else ()))
 
 
 def process_case(ctx: Any, spec: dict[str, Any], base: Path, lock: Any) -> dict[str, Any] | None:
@@ -1848,7 +2226,7 @@ def process_case(ctx: Any, spec: dict[str, Any], base: Path, lock: Any) -> dict[
                    None if rm is None else (rm["end_time"] is None, rm["exit_code"]), obs["hook_pre_env"] is not None,
                    obs["hook_post_env"] is not None, tuple(sorted(k for k, _ in found))))
         ctx.reach(f"outcome.rc={obs['rc']}")
-        ctx.sample({"case": {f: spec[f] for f in FACTORS + [x for x in ("contend", "dbcycle", "logtext") if spec.get(x)]}, "rc": obs["rc"], "meta_exit_code": meta_code, "events": obs["events"],
+        ctx.sample({"case": {f: spec[f] for f in FACTORS + [x for x in ("contend", "dbcycle", "logtext", "forkhelper", "latesig") if spec.get(x)]}, "rc": obs["rc"], "meta_exit_code": meta_code, "events": obs["events"],
                     "run_meta": None if rm is None else {"end_time_null": rm["end_time"] is None, "exit_code": rm["exit_code"]},
                     "keys": sorted(k for k, _ in found)})
         for key, what in found:
